@@ -28,6 +28,8 @@ ALLOWED = {
 
 
 def run(ctx):
+    from rules.C24 import calc_adjacent_rule
+    calc_adjacent_rule(ctx, "C38")
     sites = all_call_sites(ctx, ["lumina_node"], [N + "store::Store::insert", "*BroadcastingStore*::announce_insert", "*InMemoryStore::insert", "*RedbStore::insert"])
     ctx.floor("C38.insert.sites", "store insertion call sites", len(sites), 7)
     for b, blk in sites:
